@@ -19,7 +19,7 @@ import (
 
 func TestMain(m *testing.M) {
 	document.SetGlobalLevel(document.LogLevelSilent)
-	kit.TestMain(m, 1000, 6000)
+	kit.TestMain(m, 600, 6000)
 }
 
 // Op is one call of the history: the shared op data plus the style argument of the style-API ops.
